@@ -21,6 +21,7 @@ func init() {
 			"C17.R1 role-pair conflicts on a field: write + concurrent access, no common mutex, not ordered by any of the listed mechanisms",
 			"C17.R2 sibling conflicts inside a multi-instance role: writes to a shared (captured) object or to a non-partitioned field",
 			"C17.R3 after a send of a pointer/slice/map the sending function does not store through it",
+			"C17.R5 a map-typed local passed to or captured by a goroutine is not used with a write by the goroutine and, after the go statement, by its spawner",
 			"C17.R4 a slice stored into a message under construction is not a (re)slice of a slice held in a field of a long-lived object (definite views only)",
 		},
 		Assumptions: []string{
@@ -205,6 +206,7 @@ func runC17(p *Prog, r *Report) {
 	}
 	c17R3(p, r)
 	c17R4(p, r, e)
+	c17R5(p, r, e)
 }
 
 func setList(m map[string]bool) []string {
@@ -348,6 +350,27 @@ func c17R4(p *Prog, r *Report, e *RaceEngine) {
 			if b, ok := x.Call.Value.(*ssa.Builtin); ok && b.Name() == "append" {
 				return classify(fn, x.Call.Args[0], d+1)
 			}
+			// a helper of the module that hands out the buffer: look at what it returns
+			if callee := x.Call.StaticCallee(); callee != nil && callee.Blocks != nil && inModule(callee) && d < 3 {
+				res := unknown
+				sawView := false
+				Instrs(callee, func(in ssa.Instruction) {
+					ret, ok := in.(*ssa.Return)
+					if !ok || len(ret.Results) == 0 {
+						return
+					}
+					saved := msgStore
+					msgStore = nil // loop-carried reasoning does not apply across the call
+					if classify(callee, ret.Results[0], d+1) == view {
+						sawView = true
+					}
+					msgStore = saved
+				})
+				if sawView {
+					return view
+				}
+				return res
+			}
 			return unknown
 		case *ssa.Phi:
 			// a slice carried around the loop in which the message is built (same buffer handed
@@ -355,6 +378,11 @@ func c17R4(p *Prog, r *Report, e *RaceEngine) {
 			if msgStore != nil && naturalLoopContains(x.Block(), msgStore.Block()) {
 				for i, ed := range x.Edges {
 					if !x.Block().Dominates(x.Block().Preds[i]) {
+						continue
+					}
+					// only the way back that follows the hand-over in the same iteration matters: a
+					// buffer that keeps growing through iterations in which nothing is handed over is fine
+					if !reachesWithout(msgStore.Block(), x.Block().Preds[i], x.Block()) {
 						continue
 					}
 					seenPhi := map[ssa.Value]bool{}
@@ -472,6 +500,65 @@ func c17R4(p *Prog, r *Report, e *RaceEngine) {
 		return unknown
 	}
 	cnt := map[string]int{}
+	// slices sent on a channel as such (the byte buffers queued for the file writer goroutines):
+	// the value, or for a parameter the argument at every call site, must not be a definite view
+	for _, fn := range p.LibFuncs() {
+		Instrs(fn, func(in ssa.Instruction) {
+			var sent ssa.Value
+			switch x := in.(type) {
+			case *ssa.Send:
+				sent = x.X
+			case *ssa.Select:
+				for _, st := range x.States {
+					if st.Dir == types.SendOnly {
+						sent = st.Send
+					}
+				}
+			}
+			if sent == nil {
+				return
+			}
+			if _, isSlice := sent.Type().Underlying().(*types.Slice); !isSlice {
+				return
+			}
+			r.Fn(FuncName(fn))
+			msgStore = in
+			where = ""
+			o := classify(fn, sent, 0)
+			at := p.InstrPos(in)
+			if prm, isPrm := sent.(*ssa.Parameter); isPrm && o != view {
+				idx := -1
+				for i, q := range fn.Params {
+					if q == prm {
+						idx = i
+					}
+				}
+				if n := e.p.CallGraph().Nodes[fn]; n != nil && idx >= 0 {
+					for _, edge := range n.In {
+						if edge.Site == nil || edge.Caller.Func == nil || !inModule(edge.Caller.Func) {
+							continue
+						}
+						args := edge.Site.Common().Args
+						if edge.Site.Common().IsInvoke() {
+							continue
+						}
+						if idx < len(args) {
+							msgStore = edge.Site
+							where = ""
+							if classify(edge.Caller.Func, args[idx], 0) == view {
+								o = view
+								at = p.InstrPos(edge.Site)
+							}
+						}
+					}
+				}
+			}
+			base := "slice sent on a channel in " + FuncName(fn)
+			cnt[base]++
+			r.Check(o != view, "C17.R4", fmt.Sprintf("%s #%d", base, cnt[base]), at, "not a definite view of a buffer kept by the sender",
+				"the slice handed to another goroutine through the channel is a view of a buffer the sender keeps ("+where+"): the sender builds the next item in the same memory while the receiver may still be reading it")
+		})
+	}
 	for _, fn := range p.LibFuncs() {
 		Instrs(fn, func(in ssa.Instruction) {
 			st, ok := in.(*ssa.Store)
@@ -531,5 +618,165 @@ func c17R4(p *Prog, r *Report, e *RaceEngine) {
 			r.Check(o != view, "C17.R4", key, p.InstrPos(st), names[o],
 				"the message carries a view of "+where+", a buffer its long-lived owner keeps writing (trim / append in place): the goroutine that receives the message reads the same backing array without synchronisation")
 		})
+	}
+}
+
+// reachesWithout: block b is reachable from a without passing through avoid (a == b counts).
+func reachesWithout(a, b, avoid *ssa.BasicBlock) bool {
+	seen := map[*ssa.BasicBlock]bool{avoid: true}
+	var walk func(x *ssa.BasicBlock) bool
+	walk = func(x *ssa.BasicBlock) bool {
+		if x == b {
+			return true
+		}
+		if seen[x] {
+			return false
+		}
+		seen[x] = true
+		for _, sc := range x.Succs {
+			if walk(sc) {
+				return true
+			}
+		}
+		return false
+	}
+	return walk(a)
+}
+
+// ---- R5: a map handed to a goroutine is not also used by its spawner ---------------------------
+
+// c17R5: maps are reference values: `go f(m)` (or a closure capturing m) gives the goroutine the
+// same table the spawner holds.  For every go statement that passes or captures a map-typed
+// local, the accesses through it in the goroutine (following it into module callees by
+// parameter position) and the accesses of the spawning function that can execute after the
+// go statement (inside the fork-join window for joined goroutines) must not include a write on
+// either side.  Locals are invisible to R1, which works on struct fields.
+func c17R5(p *Prog, r *Report, e *RaceEngine) {
+	type use struct {
+		write bool
+		at    ssa.Instruction
+	}
+	var usesOf func(fn *ssa.Function, v ssa.Value, depth int, seen map[ssa.Value]bool) []use
+	usesOf = func(fn *ssa.Function, v ssa.Value, depth int, seen map[ssa.Value]bool) []use {
+		var out []use
+		if seen[v] || depth > 4 {
+			return nil
+		}
+		seen[v] = true
+		for _, ref := range *v.Referrers() {
+			switch x := ref.(type) {
+			case *ssa.MapUpdate:
+				if x.Map == v {
+					out = append(out, use{true, x})
+				}
+			case *ssa.Lookup:
+				if x.X == v {
+					out = append(out, use{false, x})
+				}
+			case *ssa.Range:
+				out = append(out, use{false, x})
+			case ssa.CallInstruction:
+				cc := x.Common()
+				if b, ok := cc.Value.(*ssa.Builtin); ok {
+					if b.Name() == "delete" && len(cc.Args) > 0 && cc.Args[0] == v {
+						out = append(out, use{true, x})
+					}
+					continue
+				}
+				if _, isGo := x.(*ssa.Go); isGo {
+					continue
+				}
+				if callee := cc.StaticCallee(); callee != nil && callee.Blocks != nil && inModule(callee) {
+					for i, a := range cc.Args {
+						if a == v && i < len(callee.Params) {
+							for _, u := range usesOf(callee, callee.Params[i], depth+1, seen) {
+								out = append(out, use{u.write, x})
+							}
+						}
+					}
+				}
+			}
+		}
+		return out
+	}
+	n := 0
+	for _, ro := range e.Roles {
+		if ro.Go == nil {
+			continue
+		}
+		// map values given to the goroutine: arguments and captured variables
+		type handed struct {
+			inSpawner ssa.Value // the value (or the captured cell) in the spawning function
+			inCallee  ssa.Value
+			callee    *ssa.Function
+		}
+		var hs []handed
+		if callee := ro.Go.Call.StaticCallee(); callee != nil {
+			for i, a := range ro.Go.Call.Args {
+				if _, isMap := a.Type().Underlying().(*types.Map); isMap && i < len(callee.Params) {
+					hs = append(hs, handed{a, callee.Params[i], callee})
+				}
+			}
+		}
+		if mc, ok := ro.Go.Call.Value.(*ssa.MakeClosure); ok {
+			if cl, _ := mc.Fn.(*ssa.Function); cl != nil {
+				for i, b := range mc.Bindings {
+					if i >= len(cl.FreeVars) {
+						continue
+					}
+					if _, isMap := derefType(b.Type()).Underlying().(*types.Map); isMap {
+						hs = append(hs, handed{b, cl.FreeVars[i], cl})
+					}
+				}
+			}
+		}
+		for _, h := range hs {
+			n++
+			r.Fn(FuncName(ro.In))
+			// goroutine side
+			var gUses []use
+			cv := h.inCallee
+			if _, isCell := cv.Type().Underlying().(*types.Pointer); isCell {
+				for _, ref := range *cv.Referrers() {
+					if ld, ok := ref.(*ssa.UnOp); ok && ld.Op == token.MUL {
+						gUses = append(gUses, usesOf(h.callee, ld, 0, map[ssa.Value]bool{})...)
+					}
+				}
+			} else {
+				gUses = usesOf(h.callee, cv, 0, map[ssa.Value]bool{})
+			}
+			// spawner side, after the go statement
+			win := e.window[ro.Go]
+			var sUses []use
+			sv := h.inSpawner
+			var cands []use
+			if _, isCell := sv.Type().Underlying().(*types.Pointer); isCell {
+				for _, ref := range *sv.Referrers() {
+					if ld, ok := ref.(*ssa.UnOp); ok && ld.Op == token.MUL {
+						cands = append(cands, usesOf(ro.In, ld, 0, map[ssa.Value]bool{})...)
+					}
+				}
+			} else {
+				cands = usesOf(ro.In, sv, 0, map[ssa.Value]bool{})
+			}
+			for _, u := range cands {
+				if win[u.at] {
+					sUses = append(sUses, u)
+				}
+			}
+			bad := ""
+			for _, g := range gUses {
+				for _, s := range sUses {
+					if (g.write || s.write) && bad == "" {
+						bad = fmt.Sprintf("the goroutine uses it at %s (write=%v) while the spawner can still use it at %s (write=%v)", p.InstrPos(g.at), g.write, p.InstrPos(s.at), s.write)
+					}
+				}
+			}
+			r.Check(bad == "", "C17.R5", fmt.Sprintf("map handed to goroutine %s by %s #%d", shortRole(ro), FuncName(ro.In), n), p.InstrPos(ro.Go), fmt.Sprintf("%d uses in the goroutine, %d in the spawner after the go statement, no write among concurrent pairs", len(gUses), len(sUses)),
+				"a map is shared between the goroutine and the function that started it without synchronisation: "+bad+" (maps are not safe for concurrent use: the runtime can abort with 'concurrent map read and map write')")
+		}
+	}
+	if n == 0 {
+		r.Notes = append(r.Notes, "C17.R5: no go statement passes or captures a map-typed local on this tree (the kept variant C17-9 is the positive example in the thorough tier)")
 	}
 }
